@@ -195,6 +195,23 @@ def window_unaltered(ctx: Ctx, py: PyProgram, rule: str = "C01.4/window", hooks:
         fn = py.func(isa.ARCH_PY, q)
         params = {a.arg for a in fn.args.args if a.arg != "self"}
         calls = [c for c in ast.walk(fn) if isinstance(c, ast.Call) and unparse(c.func) == "decode"]
+        if not calls:
+            # the hook may reach decode() through a helper of its class: the same obligations hold on both hops
+            cls_ = py.need_cls(py.module(isa.ARCH_PY), q.split(".")[0])
+            for hc in [c for c in ast.walk(fn) if isinstance(c, ast.Call) and isinstance(c.func, ast.Attribute) and isinstance(c.func.value, ast.Name) and c.func.value.id == "self" and c.func.attr in cls_.methods]:
+                helper = cls_.methods[hc.func.attr]
+                if any(isinstance(x, ast.Call) and unparse(x.func) == "decode" for x in ast.walk(helper)):
+                    calls.append(hc)
+                    hparams = {a_.arg for a_ in helper.args.args if a_.arg != "self"}
+                    for x in ast.walk(helper):
+                        if isinstance(x, ast.Call) and unparse(x.func) == "decode":
+                            for a in x.args[:2]:
+                                n += 1
+                                if not (isinstance(a, ast.Name) and a.id in hparams) or any(
+                                        isinstance(y, (ast.Assign, ast.AugAssign)) and y.lineno <= x.lineno and any(isinstance(t, ast.Name) and t.id == a.id for t in (y.targets if isinstance(y, ast.Assign) else [y.target]))
+                                        for y in ast.walk(helper)):
+                                    ctx.violation(rule, key_of(isa.ARCH_PY, f"{q.split('.')[0]}.{helper.name}", "decode() is not given the helper's own parameter"),
+                                                  f"{helper.name} decodes `{unparse(a)}`, not the bytes/address it was called with", f"{isa.ARCH_PY}:{x.lineno}")
         for c in calls:
             for a in c.args[:2]:
                 n += 1
